@@ -178,6 +178,9 @@ class AddressAg(AddressBase):
         elif self._platform == "nxos":
             self._type = "wildcard"
 
+        if self._platform == "ios":
+            self._sequence = 0  # members of an IOS object-group carry no sequence numbers
+
         for item in self._items:
             item.platform = self._platform
 
